@@ -619,6 +619,7 @@ ALWAYS_INLINE = {
         "state::oracle::OracleAccessor::<'info>::load_mut",
         "state::dynamic_tick_array::DynamicTickArrayLoader::update_tick_bitmap",
         "pinocchio::state::whirlpool::tick_array::dynamic_tick_array::MemoryMappedDynamicTickArray::update_tick_bitmap",
+        "pinocchio::instructions::reposition_liquidity_v2::assert_new_range_token_increase_under_max",
         "util::sparse_swap::maybe_load_tick_array",
         "pinocchio::state::whirlpool::position::MemoryMappedPosition::reset_reward_growth_checkpoints",
         "util::swap_utils::perform_swap",
